@@ -19,7 +19,10 @@ SPEC = {
          'sinks': {'C09_history_big': 'histmon_judge'}, 'n': {'quick': 1, 'thorough': 6}},
         {'pkg': 'execute', 'src': 'harness/execute/c09_test.go', 'test': 'TestVerif_C09_history', 'fakes': True,
          'sinks': {'C09_history': 'hist_judge'}, 'n': {'quick': 40, 'thorough': 1200}},
+        {'pkg': 'execute', 'src': ['harness/execute/c09_test.go', 'harness/execute/c09h_test.go'], 'test': 'TestVerif_C09_cycles',
+         'fakes': True, 'sinks': {'C09_cycles': 'cyc_judge'}, 'n': {'quick': 60, 'thorough': 900}},
     ],
+    'known': {'1': 'F55'},
     'rule': 'layouts of 1..6 commit reports of one chain, lengths 1..8, adjacent / holes / mixed / near 2^64 / overlapping / '
             'next-starts-on-previous-end, given in order or shuffled; executed sets none / all / random 30% / 70% / prefix / suffix / '
             'one report / all but one / report edges / runs from inside one report into the next or the one after / strict inside; '
@@ -36,12 +39,39 @@ SPEC = {
             'instances (F=1, one of them silent or sending garbage in half of the histories) over a world of 1..2 source chains where commit '
             'reports land (with holes), executions land from elsewhere (singly, out of order, across reports) and the DON\'s own reports land '
             'fully / partly / never; the reader answers per-message, merged, chunked, repeated and touching ranges; every round\'s outcome is '
-            'compared with the model on the world snapshot of the cycle\'s first observation. non-trivial = >= 2 reports (ranges), non-empty executed set '
-            '(filter), no scripted failure (pending), Filter rounds (history); distinct by full input',
+            'compared with the model on the world snapshot of the cycle\'s first observation. '
+            'cycles (one case = one whole history): four LONG-LIVED execute.Plugin instances built once per history with NewPlugin (production '
+            'constructor, contract discovery on; F=1; the fourth oracle honest / silent / garbage / lagging one cycle behind) run 5..12 complete cycles '
+            'over ONE simulated destination of 1..3 source chains that changes between cycles - commit reports land at different times (several '
+            'roots in one report = equal timestamps), the cycle\'s own report lands at once / partly / 2..4 cycles late / never, executions from '
+            'elsewhere become visible, the clock moves (small steps, a quarter of the interval, exactly onto / one unit past the edge of the '
+            'window of the oldest report still inside, past the whole window), sequenced messages become ready or stop being ready (nonce '
+            'answers), global / destination / source curses come and go, source chains leave and re-enter the home-chain configuration - '
+            'all of these at once, or one aspect only per history, or "pinned" (some message of the newest report stays not-ready and no report '
+            'ever lands: the same messages are offered again every cycle). The reader honours and records the (timestamp lower bound, limit) '
+            'arguments of CommitReportsGTETimestamp. Two clocks: two thirds of the histories age the destination (unit 1 minute, interval '
+            '30..480 min: every report is presented with a timestamp relative to the real now); one third run on the REAL clock (unit 100 ms, '
+            'interval 0.5..1.2 s, absolute report timestamps, the harness sleeps to the scripted instants; a cycle that misses its slot because '
+            'the machine is overloaded discards the history - class discarded-timing - rather than judge it). Per cycle, judged in Coq against '
+            'the model evaluated on the destination\'s CURRENT content: reader arguments, pending after GetCommitReports, messages of the '
+            'transmitted report (Plugin.Reports decoded), pending after Filter; and by the executable history property cyc_ok (interval '
+            'arithmetic, independent of the model): lower bound = current clock - interval and limit = 1000 for every observing oracle, none when '
+            'globally / destination cursed; pending exact; NO LOSS: every unexecuted, ready message of a report inside the window of a live chain '
+            'is in the cycle\'s report whatever happened to the earlier reports; nothing executed / not ready / outside the window / of a cursed '
+            'or unknown chain is in it, nothing twice; pending after Filter exact. '
+            'non-trivial = >= 2 reports (ranges), non-empty executed set '
+            '(filter), no scripted failure (pending), Filter rounds (history), some cycle with a non-empty report (cycles); distinct by full input',
     'trusted': ['CCIPReader.CommitReportsGTETimestamp / ExecutedMessageRanges answers are oracles (scripted fake); the legal answers '
                 'considered are those whose ranges, sorted by start, each begin at or after the previous end',
-                'sort.Slice on distinct start values (equal starts are not generated; Go gives no order for them)'],
-    'assumptions': ['sequence-number ranges end below 2^64-1 in the harness (the model returns Spin for the non-terminating corner, F19)'],
+                'sort.Slice on distinct start values (equal starts are not generated; Go gives no order for them)',
+                'cycles: time.Now is not injectable - the aged-clock histories shift the destination\'s timestamps instead of the clock (an '
+                'implementation that remembers its OWN clock readings is only exposed by the real-clock histories); the off-ramp accepts a root '
+                'only for a non-empty interval above everything committed for that source chain, executes only committed messages, and an '
+                'execution report executes only messages it contains (model step function); Nonces / GetRmnCurseInfo / home-chain answers are '
+                'scripted'],
+    'assumptions': ['sequence-number ranges end below 2^64-1 in the harness (the model returns Spin for the non-terminating corner, F19)',
+                    'cycles: honest oracles read the same destination within a cycle (it moves between cycles only), every committed message is '
+                    'readable, no token data, nothing costly, everything fits the report limits, fewer than 1000 commit reports inside the window'],
     'level_text': 'Proof (function level): Coq theorems over the executable model of computeRanges, groupByChainSelector, '
                   'filterOutExecutedMessages and getPendingExecutedReports, with executed lists in closed form (runs): see Props/C09.v. '
                   'Correspondence: the three functions against the model and against an independent interval-arithmetic specification every run. '
@@ -50,7 +80,19 @@ SPEC = {
                   'C09_liveness_filter_round_all_ready / _partial for the Filter round (a provable commit report whose all-ready chain report fits the '
                   'budget gets a chain report with every eligible nonce-0 message); not proved: that honest readers yield f+1 identical observations, '
                   'broken nonce chains, the greedy fallback. The history-level reading (never-reexecuted, pending-exact, one-cycle inclusion) is '
-                  'monitored on real four-oracle histories under same-view / everything-ready conditions.',
+                  'monitored on real four-oracle histories under same-view / everything-ready conditions. '
+                  'History level (Model/ExecCycles.v, Proofs/ExecCyclesP.v; state = destination content, events = tick | commit | executions '
+                  'visible | readiness | curses | roles | cycle with what lands at once), proved by induction over event lists for EVERY history: '
+                  'C09_hist_cycle_memoryless (the observation of a cycle is a function of the destination\'s content when it starts), '
+                  'C09_hist_filter_total + C09_hist_pending_exact (for every legal shape of the reader\'s executed-range answer the pending filter '
+                  'succeeds and yields exactly the committed reports inside the window with an unexecuted message, each recording executed set '
+                  '/\\ interval), C09_hist_candidates (closed form of the report\'s candidate set), C09_hist_never_reexecuted (a message executed at '
+                  'some point is a candidate of no later cycle), C09_hist_no_loss (a message of a committed report is a candidate of EVERY later '
+                  'cycle in which it is unexecuted, inside the window, of a live chain and ready - non-landing cannot lose it), '
+                  'C09_hist_executed_committed, C09_hist_reader_answer_legal / C09_hist_nonvacuous (non-vacuity). Correspondence of that model with '
+                  'long-lived plugins: sink C09_cycles (any memo / leftover state in the Plugin shows up as a model mismatch; cyc_ok turns it into '
+                  'a concrete violating history).',
     'level_note': 'Trusted: Coq kernel, hand-written model, differential harness. No axioms.',
-    'modelled': 'computeRanges, groupByChainSelector, filterOutExecutedMessages, getPendingExecutedReports, and (for the cycle / liveness theorems) the report builder of Model/ExecReport.v; the reader is an input',
+    'modelled': 'computeRanges, groupByChainSelector, filterOutExecutedMessages, getPendingExecutedReports, and (for the cycle / liveness theorems) the report builder of Model/ExecReport.v; the reader is an input. '
+                'History level: getCommitReportsObservation (fetchFrom from the current clock, curse gate, known non-cursed sources), the pending filter, the candidate set of the Filter round under everything-fits conditions, selectReport\'s still-pending rule; the destination (off-ramp commit / execute semantics) is a step function',
 }
